@@ -54,6 +54,9 @@ def signers_from_list(signers: list[dict[str, Any]]) -> set[Signer] | None:
     """
     if not signers:
         return None
+    if not isinstance(signers, list):
+        # handle a single Signer in the bundle
+        signers = [signers]
     return {Signer(key_identifier=this["attrs"]["keyIdentifier"]) for this in signers}
 
 
